@@ -131,6 +131,9 @@ def bind_params(ex, st, finfo, args, kw, line, bound=None):
                                                                 line))
     for n, v in zip(names, pos):
         vals[n] = v
+    alias = getattr(finfo.node, '_param_alias', None)
+    if alias:
+        kw = {alias.get(k, k): v for k, v in kw.items()}
     for k, v in kw.items():
         if k not in names or k in vals:
             raise Unsupported('bad keyword %s for %s' % (k, finfo.qual))
@@ -163,6 +166,12 @@ def call_func(ex, st, fi, fv, args, kw, line):
     q = fv.qual
     finfo = ex.repo.funcs.get(q)
     c = ex.contracts.get(q)
+    rn = getattr(getattr(finfo, 'node', None), '_ref_name', None)
+    if c is None and rn and '.<locals>.' in q:
+        # nested function known to the contracts under its reference name
+        q2 = q.rsplit('.', 1)[0] + '.' + rn
+        if ex.contracts.get(q2) is not None:
+            q, c = q2, ex.contracts.get(q2)
     if c is not None and not ex.contracts.force_inline(q, ex.cur_func):
         try:
             vals = bind_params(ex, st, finfo, args, kw, line, fv.bound)
@@ -181,8 +190,75 @@ def call_func(ex, st, fi, fv, args, kw, line):
         # a check into "undecided"); recursion is cut by the depth guard
         yield from inline(ex, st, fi, finfo, args, kw, line, fv)
         return
+    if _moved_loops(ex, finfo):
+        # extract-method refactoring: a new helper whose loops are loops of
+        # the function under verification in the reference tree (same
+        # header) -- executed from its real body, the moved loops keep their
+        # loop contracts
+        yield from inline(ex, st, fi, finfo, args, kw, line, fv)
+        return
     raise Unsupported('call of %s (no contract, not inlinable) at %s:%d' % (
         q, fi.qual, line))
+
+
+def _moved_loops(ex, finfo):
+    """True iff `finfo` is a function the reference tree does not have, has
+    no try / yield, and every loop of it has the header of a loop that the
+    top-level function under verification had in the reference tree and
+    that this function no longer has itself; the loops are then labelled
+    with those ordinals and the loop contracts of that function apply"""
+    import hashlib
+    from . import alpha
+    top = (ex.cur_func or '').split('#')[0]
+    if '<locals>' in top or '<' in top.rsplit('.', 1)[-1]:
+        return False
+    if '<locals>' in finfo.qual or finfo.qual in alpha.ref():
+        return False
+    for n in ast.walk(finfo.node):
+        if isinstance(n, (ast.AsyncFor, ast.Yield, ast.YieldFrom, ast.Try)):
+            return False
+    R = alpha.ref().get(top)
+    tfi = ex.repo.funcs.get(top)
+    ctop = ex.contracts.get(ex.cur_func) or ex.contracts.get(top)
+    if R is None or tfi is None or ctop is None:
+        return False
+    done = getattr(finfo.node, '_moved', None)
+    if done is not None:
+        return done == top
+    # reference loops of the function itself (owner: item 0)
+    refloops = {}
+    for it in R:
+        if len(it) > 2 and it[2][0] == 0:
+            refloops.setdefault(it[0], []).append(it[2][1])
+    used = set()
+    for k, ln in enumerate(tfi.loop_nodes()):
+        o = getattr(ln, '_ref_ordinal', k) if hasattr(ln, '_ref_ordinal') \
+            else k
+        if o is not None:
+            used.add(o)
+    items = alpha.itemise(finfo.node)[0]
+    plan = []
+    for it in items:
+        if it[2] is None:
+            continue
+        if it[2][0] != 0:
+            return False            # loop inside a nested function
+        h = hashlib.sha1(it[0].encode()).hexdigest()[:16]
+        cand = [o for o in refloops.get(h, []) if o not in used]
+        if not cand:
+            return False
+        used.add(cand[0])
+        plan.append((it[2][2], cand[0]))
+    if not plan:
+        return False
+    for node, o in plan:
+        node._ref_ordinal = o
+    finfo.node._moved = top
+    lc = ex.contracts.get_loops(finfo.qual)
+    for node, o in plan:
+        if o in ctop.loops:
+            lc.loops[o] = ctop.loops[o]
+    return True
 
 
 def _loop_free(finfo):
@@ -549,6 +625,7 @@ def b_str(ex, st, fi, args, kw, line):
 
 def b_repr(ex, st, fi, args, kw, line):
     s = fresh_seq('str', 'repr', st.assume)
+    ex.note_imprecise('repr', s)
     yield st, s
 
 
@@ -584,6 +661,20 @@ def b_list(ex, st, fi, args, kw, line):
         yield st, TokList([Single(x) for x in v])
     else:
         raise Unsupported('list(%r) at %d' % (v, line))
+
+
+def iterable_as_list(ex, st, v, line):
+    """list value of a lazy iterable (what list(v) would give); other
+    values are returned as they are"""
+    if isinstance(v, tuple) and v and v[0] == '$range':
+        if v[3] != 1:
+            raise Unsupported('range with a step as a list at %d' % line)
+        return sym.seq_range(v[1], v[2])
+    if isinstance(v, tuple) and v and v[0] == '$reversed':
+        return list_reversed(ex, st, v[1], line)
+    if isinstance(v, tuple) and v and v[0] == '$keys':
+        return dict_keys_list(ex, st, v[1], line)
+    return v
 
 
 def dict_keys_list(ex, st, d, line):
@@ -637,13 +728,58 @@ def b_next(ex, st, fi, args, kw, line):
     raise Unsupported('next(%r) at %d' % (g, line))
 
 
+def desugar_enumerate(node):
+    """(ELT for I, V in enumerate(X) if C)  ==>
+    (ELT' for I in range(len(X)) if C')  with V replaced by X[I]; X a name or
+    an attribute chain (no side effects, evaluated repeatedly).  Other
+    comprehensions are returned as they are."""
+    if len(node.generators) != 1:
+        return node
+    gen = node.generators[0]
+    t, it = gen.target, gen.iter
+    if not (isinstance(t, ast.Tuple) and len(t.elts) == 2 and
+            all(isinstance(e, ast.Name) for e in t.elts) and
+            isinstance(it, ast.Call) and isinstance(it.func, ast.Name) and
+            it.func.id == 'enumerate' and len(it.args) == 1 and
+            not it.keywords):
+        return node
+    x = it.args[0]
+    y = x
+    while isinstance(y, ast.Attribute):
+        y = y.value
+    if not isinstance(y, ast.Name):
+        return node
+    ivar, vvar = t.elts[0].id, t.elts[1].id
+
+    class Sub(ast.NodeTransformer):
+        def visit_Name(self, n):
+            if n.id == vvar and isinstance(n.ctx, ast.Load):
+                return ast.copy_location(ast.Subscript(
+                    value=x, slice=ast.Name(id=ivar, ctx=ast.Load()),
+                    ctx=ast.Load()), n)
+            return n
+    import copy as _copy
+    new = _copy.deepcopy(node)
+    g2 = new.generators[0]
+    g2.target = ast.Name(id=ivar, ctx=ast.Store())
+    g2.iter = ast.Call(func=ast.Name(id='range', ctx=ast.Load()), args=[
+        ast.Call(func=ast.Name(id='len', ctx=ast.Load()), args=[x],
+                 keywords=[])], keywords=[])
+    g2.ifs = [Sub().visit(c) for c in g2.ifs]
+    if hasattr(new, 'elt'):
+        new.elt = Sub().visit(new.elt)
+    ast.copy_location(new, node)
+    ast.fix_missing_locations(new)
+    return new
+
+
 def least_index(ex, st, fi, g, default, line):
     """next((ELT for V in ITER if COND), default)
 
     Supported:  ITER = range(a, b[, -1]); ELT = V  -> least (greatest) index
                 ITER = list, ELT = V               -> first matching element
     """
-    node = g.node
+    node = desugar_enumerate(g.node)
     if len(node.generators) != 1:
         raise Unsupported('nested generator at %d' % line)
     gen = node.generators[0]
@@ -783,6 +919,25 @@ def _first_elem(ex, st, fi, var, elt, conds, lst, default, line):
     yield st, merge_values(ex, [(Not(none), e), (none, d)], st)
 
 
+def b_sum(ex, st, fi, args, kw, line):
+    """sum(1 for V in ITER if COND): the number of selected elements, i.e.
+    len([V for V in ITER if COND])"""
+    g = args[0]
+    if isinstance(g, GenExp) and len(args) == 1 and \
+            isinstance(g.node.elt, ast.Constant) and g.node.elt.value == 1 \
+            and len(g.node.generators) == 1 and \
+            isinstance(g.node.generators[0].target, ast.Name):
+        gen = g.node.generators[0]
+        lc = ast.ListComp(elt=ast.Name(id=gen.target.id, ctx=ast.Load()),
+                          generators=g.node.generators)
+        ast.copy_location(lc, g.node)
+        ast.fix_missing_locations(lc)
+        for st1, v in listcomp(ex, lc, st, fi):
+            yield from b_len(ex, st1, fi, [v], {}, line)
+        return
+    raise Unsupported('builtin sum at %d' % line)
+
+
 def b_any(ex, st, fi, args, kw, line):
     yield from _anyall(ex, st, fi, args, line, True)
 
@@ -795,7 +950,7 @@ def _anyall(ex, st, fi, args, line, is_any):
     g = args[0]
     if not isinstance(g, GenExp):
         raise Unsupported('any/all of %r' % (g,))
-    node = g.node
+    node = desugar_enumerate(g.node)
     gen = node.generators[0]
     if len(node.generators) != 1 or not isinstance(gen.target, ast.Name):
         raise Unsupported('any/all generator at %d' % line)
@@ -837,6 +992,7 @@ def _anyall(ex, st, fi, args, line, is_any):
                              line) if hook else NotImplemented
                     if r is NotImplemented:
                         r = fresh_bool('anyall')
+                        ex.note_imprecise('any/all over a summarised list', r)
                         if is_any:
                             st1.assume(Implies(zint(sg.ln) == 0, Not(r)))
                         else:
@@ -890,7 +1046,7 @@ def b_tuple(ex, st, fi, args, kw, line):
 
 
 BUILTIN = {
-    'len': b_len, 'min': b_min, 'max': b_max, 'abs': b_abs, 'type': b_type,
+    'len': b_len, 'sum': b_sum, 'min': b_min, 'max': b_max, 'abs': b_abs, 'type': b_type,
     'isinstance': b_isinstance, 'callable': b_callable, 'int': b_int,
     'str': b_str, 'repr': b_repr, 'range': b_range, 'list': b_list,
     'reversed': b_reversed, 'enumerate': b_enumerate, 'next': b_next,
@@ -1015,6 +1171,26 @@ def str_method(ex, st, fi, o, name, args, kw, line):
             if getattr(s, 'tag', None) is not None:
                 x.tag = s.tag
         yield st, (head, sep, tail)
+    elif name == 'rpartition':
+        # s.rpartition(c), one-character separator: (head, sep, tail) split
+        # at the greatest index of c; ('', '', s) when c does not occur
+        t = lift_str(args[0])
+        if not (isinstance(t.ln, int) and t.ln == 1):
+            raise Unsupported('rpartition separator at %d' % line)
+        c = t.at(0)
+        r = fresh_int('rpart')
+        n = zint(s.ln)
+        found = And(0 <= r, r < n, s.at(r) == c,
+                    forall(r + 1, n, lambda k: s.at(k) != c))
+        st.assume(Or(found, And(r == -1, forall(0, n,
+                                                lambda k: s.at(k) != c))))
+        head = SSeq(s.arr, z3.If(r >= 0, r, 0), 'str')
+        sep = SSeq(sym.lam(lambda k: c), z3.If(r >= 0, 1, 0), 'str')
+        tail = SSeq(sym.lam(lambda k: s.at(r + 1 + k)), n - r - 1, 'str')
+        for x in (head, sep, tail):
+            if getattr(s, 'tag', None) is not None:
+                x.tag = s.tag
+        yield st, (head, sep, tail)
     elif name == 'startswith':
         start = args[1] if len(args) > 1 else 0
         t = args[0]
@@ -1061,6 +1237,7 @@ def str_method(ex, st, fi, o, name, args, kw, line):
         yield st, And(zint(s.ln) > 0, forall(0, s.ln, lambda k: f(s.at(k))))
     elif name == 'islower':
         b = fresh_bool('islower')
+        ex.note_imprecise('str.islower', b)
         st.assume(Implies(zint(s.ln) == 1, b == islower_c(s.at(0))))
         yield st, b
     elif name in ('upper', 'lower'):
@@ -1068,6 +1245,7 @@ def str_method(ex, st, fi, o, name, args, kw, line):
         # length preserved for the characters the code base applies it to
         # (ASCII letters); general unicode may change the length -> abstract
         r = fresh_seq('str', name, st.assume)
+        ex.note_imprecise('str.' + name, r)
         st.assume(Implies(And(zint(s.ln) == 1, s.at(0) < 128),
                           And(r.ln == 1, r.at(0) == f(s.at(0)))))
         st.assume((r.ln == 0) == (zint(s.ln) == 0))
@@ -1089,6 +1267,7 @@ def str_method(ex, st, fi, o, name, args, kw, line):
 
         def mk(s1):
             w = fresh_seq('str', 'word', s1.assume)
+            ex.note_imprecise('str.split', w)
             s1.assume(w.ln >= 1)
             s1.assume(forall(0, w.ln,
                              lambda k: Not(sym.isspace_c(w.at(k)))))
@@ -1102,6 +1281,7 @@ def str_method(ex, st, fi, o, name, args, kw, line):
             yield st, r
             return
         res = fresh_seq('str', 'join', st.assume)
+        ex.note_imprecise('str.join', res)
         res.tag = 'raw'     # provenance unknown: treated as unescaped text
         if isinstance(v, TokList):
             n = v.length()
@@ -1149,6 +1329,7 @@ def str_method(ex, st, fi, o, name, args, kw, line):
                            s.ln, 'str')
             return
         res = fresh_seq('str', 'replace', st.assume)
+        ex.note_imprecise('str.replace', res)
         yield st, res
     elif name == 'encode':
         # UTF-8 length: additive over concatenation, 1..4 bytes per code
@@ -1167,7 +1348,9 @@ def str_method(ex, st, fi, o, name, args, kw, line):
     elif name == 'copy':
         yield st, o
     elif name == 'format':
-        yield st, fresh_seq('str', 'formatted', st.assume)
+        res = fresh_seq('str', 'formatted', st.assume)
+        ex.note_imprecise('str.format', res)
+        yield st, res
     else:
         raise Unsupported('str.%s at %d' % (name, line))
 
@@ -1184,7 +1367,7 @@ def ilist_method(ex, st, fi, o, name, args, kw, line, node):
     elif name == 'copy':
         yield st, o
     elif name == 'extend':
-        new = sym.seq_concat(o, args[0])
+        new = sym.seq_concat(o, iterable_as_list(ex, st, args[0], line))
         _rebind(ex, st, fi, node, new)
         yield st, None
     elif name == 'pop':
@@ -1264,9 +1447,7 @@ def list_method(ex, st, fi, o, name, args, kw, line):
         st.writes.append((o.lid, '$list'))
         yield st, None
     elif name == 'extend':
-        v = args[0]
-        if isinstance(v, tuple) and v and v[0] == '$reversed':
-            v = list_reversed(ex, st, v[1], line)
+        v = iterable_as_list(ex, st, args[0], line)
         ex.list_extend(o, v, st, line)
         st.mut += 1
         st.writes.append((o.lid, '$list'))
@@ -1399,6 +1580,25 @@ def dict_method(ex, st, fi, d, name, args, kw, line):
         if mv is NotImplemented:
             raise Unsupported('dict.get merge at %d' % line)
         yield st, mv
+    elif name == 'setdefault' and len(args) == 2:
+        # d.setdefault(k, v):  d[k] if k in d, else d[k] = v and v
+        k, dflt = args
+        present = ex.contains(d, k, st, line)
+        if present is True:
+            yield st, ex.dict_get(d, k, st, line, check=False)
+            return
+        if present is not False:
+            a = st.clone()
+            a.assume(present)
+            a.trace.append('T@%d' % line)
+            st.assume(Not(present))
+            st.trace.append('F@%d' % line)
+            if ex.feasible(a):
+                yield a, ex.dict_get(d, k, a, line, check=False)
+            if not ex.feasible(st):
+                return
+        ex.store_item(d, k, dflt, st, line)
+        yield st, dflt
     elif name == 'keys':
         yield st, ('$keys', d)
     elif name == 'items':
